@@ -54,11 +54,34 @@ def gen_vcmp(tier, rng):
         extra.append(V(1, 0, 0, pre, rng.choice(BUILDS)))
     U = U + extra
     cases = [dump(['vcmp', enc_version(a), enc_version(b)]) for a in U for b in U]
+    # (1) components at every power of two (and its neighbours) against the versions a positional packing of major.minor.patch would confuse them with
+    small = [V(0, 0, 0), V(0, 0, 1), V(0, 1, 0), V(1, 0, 0), V(1, 0, 1), V(1, 1, 0), V(2, 0, 0), V(3, 6, 0), V(3, 7, 0), V(3, 7, 1), V(3, 8, 0), V(4, 0, 0)]
+    npow = 0
+    for m in POWERS:
+        grp = []
+        for x in (m - 1, m, m + 1):
+            grp += [V(0, 0, x), V(0, x, 0), V(x, 0, 0), V(1, 0, x), V(3, 6, x), V(3, 7, x), V(3, x, 7), V(x, x, x)]
+        for a in grp:
+            for b in small:
+                cases.append(dump(['vcmp', enc_version(a), enc_version(b)])); cases.append(dump(['vcmp', enc_version(b), enc_version(a)])); npow += 2
+        for a in grp[8:16]:
+            for b in grp:
+                cases.append(dump(['vcmp', enc_version(a), enc_version(b)])); npow += 1
+    # (2) prerelease lists of 3 and 4 identifiers, exhaustively over a small identifier alphabet: the first differing position decides,
+    # whatever stands before and after it
+    L3 = [t for t in itertools.product([0, 1, 2, 'a', 'b'], repeat=3)]
+    L4 = [t for t in itertools.product([0, 1, 'a'], repeat=4)]
+    LL = [V(1, 0, 0, t) for t in L3 + L4] + [V(1, 0, 0, t) for t in [(), (0,), ('a',), (0, 1), ('a', 1), ('a', 'b'), (0, 1, 'a', 'b', 2), ('a', 'b', 'c', 'd', 'e', 9), ('a', 'b', 'c', 'd', 'f', 0)]]
+    for a in LL:
+        for b in LL:
+            cases.append(dump(['vcmp', enc_version(a), enc_version(b)]))
     for _ in range(300 if tier == 'quick' else 5000):
         l = [rng.choice(U) for _ in range(rng.randint(0, 9))]
         cases.append(dump(['vsort', [enc_version(v) for v in l]]))
-    return cases, {'universe': len(U), 'exhaustive': True,
-                   'what': 'all ordered pairs of a %d-version universe (cmp, ==, hash equality) + random lists through slice::sort / Iterator::max / min' % len(U)}
+    return cases, {'universe': len(U), 'exhaustive': True, 'power_of_two_pairs': npow, 'identifier_list_versions': len(LL),
+                   'what': 'all ordered pairs of a %d-version universe (cmp, ==, hash equality); every power of two up to MAX_SAFE_INTEGER and its neighbours in each component position against the '
+                           'versions a positional packing would confuse it with (%d pairs); all ordered pairs of %d versions whose prerelease lists are all lists of 3 identifiers over {0,1,2,a,b} and of 4 over {0,1,a}; '
+                           'random lists through slice::sort / Iterator::max / min' % (len(U), npow, len(LL))}
 
 def eval_vcmp(triples, tier, rng):
     fails = []; dist = {'lt': 0, 'eq': 0, 'gt': 0, 'sort': 0}; nontrivial = set(); certs = []
@@ -127,6 +150,10 @@ def gen_vdiff(tier, rng):
     tags = ([(), (0,), ('a',), ('a', 1)] if tier == 'quick' else [(), (0,), (1,), ('a',), ('a', 1), ('b',)]) + HV.tags()[:2]
     U = [V(a, b, c, t, rng.choice(BUILDS)) for a in nums for b in nums for c in nums for t in tags]
     cases = [dump(['vdiff', enc_version(a), enc_version(b)]) for a in U for b in U]
+    # field distances at every power of two (a narrowing cast, a packed comparison)
+    for x in power_values():
+        for a, b in ((V(x, 2, 3), V(0, 2, 3)), (V(1, x, 3), V(1, 0, 3)), (V(1, 2, x), V(1, 2, 0)), (V(x + 1, 5, 0), V(1, 2, 3)), (V(1, 2, x, ('a',)), V(1, 2, 0)), (V(1, x, 0), V(1, 0, x)), (V(x, 0, 0), V(0, x, 0))):
+            cases.append(dump(['vdiff', enc_version(a), enc_version(b)])); cases.append(dump(['vdiff', enc_version(b), enc_version(a)]))
     return cases, {'universe': len(U), 'exhaustive': True,
                    'what': 'all ordered pairs over {%s}^3 x %d tags x random build metadata' % (','.join(map(str, nums)), len(tags))}
 
